@@ -79,7 +79,8 @@ func newAuthEnv(tag, list, stype string) (*authEnv, error) {
 	var writers []string
 	switch list {
 	case "explicit":
-		writers = []string{a.w1.DB.Identity().ID, a.w2.DB.Identity().ID}
+		// (the replica under test may write too: forgeries can then name the very replica that receives them)
+		writers = []string{a.w1.DB.Identity().ID, a.w2.DB.Identity().ID, a.r.DB.Identity().ID}
 	case "wildcard":
 		writers = []string{"*"}
 	case "empty":
@@ -179,7 +180,7 @@ func (a *authEnv) listed(n *sim.Node) bool {
 	case "wildcard":
 		return true
 	case "explicit":
-		return n == a.w1 || n == a.w2
+		return n == a.w1 || n == a.w2 || n == a.r
 	}
 	return n == a.w1
 }
@@ -390,6 +391,15 @@ func (a *authEnv) forge(ctx context.Context, class string, base ipfslog.Entry) (
 		e.Identity = w1id.Filtered()
 		e.Key = w1id.PublicKey
 		return e, key, false, rehash(ctx, a.x, e)
+	case "copied-id-of-receiver":
+		// the forgery names the identity of the replica that receives it (which may write when the list is explicit):
+		// all keys are the attacker's
+		fid, err := forgedIdentity(ctx, a.x, a.r.DB.Identity().ID, "orbitdb")
+		if err != nil {
+			return nil, key, false, err
+		}
+		e, err := mkEntry(ctx, a.x, fid, a.addr, payload, next, t)
+		return e, key, false, err
 	case "copied-id", "foreign-type":
 		typ := "orbitdb"
 		if class == "foreign-type" {
